@@ -15,14 +15,14 @@ from vf.probes import ProbeLog, Spec, build_instance, EXC_CLASSES, UserError, Un
 class Fixture(object):
     """A real SimpleJSONRPCDispatcher (or server) built from a RegModel."""
 
-    def __init__(self, reg, version=2.0, use_jsonclass=True, pool=None, config=None, extra=None):
+    def __init__(self, reg, version=2.0, use_jsonclass=True, pool=None, config=None, extra=None, dispatcher_class=None):
         import jsonrpclib.config
         from jsonrpclib.SimpleJSONRPCServer import SimpleJSONRPCDispatcher
         self.reg = reg
         self.version = version
         self.log = ProbeLog()
         self.config = config or jsonrpclib.config.Config(version=version, use_jsonclass=use_jsonclass)
-        self.dispatcher = SimpleJSONRPCDispatcher(config=self.config)
+        self.dispatcher = (dispatcher_class or SimpleJSONRPCDispatcher)(config=self.config)
         self.custom = None
         self.extra = dict(extra or {})     # plain functions registered by name on every dispatcher/server of this fixture
         self.install(self.dispatcher)
